@@ -7,12 +7,13 @@
    (the provided loops over its own next, [fwd_nth] / [fwd_count] of Model/Iters.v).
 
    - [slice_impl]     std::slice::Iter itself (Desc::iat hands it out as is): trusted ([sl_*])
-   - [range_impl]     core::ops::Range<u32> as an iterator: next, next_back, nth, size_hint and count
-                      as core::iter::range writes them (forward_checked for nth)
+   - [range_impl]     core::ops::Range<u32> as an iterator: next, next_back, nth, nth_back, size_hint and count
+                      as core::iter::range writes them (forward_checked for nth, backward_checked for nth_back)
    - [zip_impl a b]   core::iter::Zip, the general implementation: next = a.next()? then b.next()?,
                       size_hint = the minimum of the two; nth = the loop over next (super_nth)
    - [map_impl i f]   core::iter::Map: next, next_back, size_hint (and len) pass to the inner iterator;
-                      nth and count are NOT overridden: the provided loops over Map::next
+                      nth and count are NOT overridden: the provided loops over Map::next; nor is nth_back:
+                      the provided loop over Map::next_back
    - [erase impl]     the same iterator behind `impl Clone + Iterator`: next_back and len are no longer callable
 
    and the shapes the library builds from them:
@@ -29,6 +30,9 @@
    - [wrap_impl slice_impl]                 Wrap<Desc32, Desc64>::iat
    - [map_impl (wrap_impl (map_impl ..))]   Wrap<Desc32, Desc64>::int  (Wrap::Tnn(desc.int()?).map(Wrap::into))
    - [icons_impl] = [flat_impl (entries_impl ..)]   Resources::icons / cursors: FlatMap over result::IntoIter of Entries
+   - [exc_functions_impl]   Exception::functions    image.iter().map(|image| Function { pe, image }) (the Map itself: full)
+   - [sections_iter_impl]   SectionHeaders::iter / IntoIterator for &SectionHeaders   as_slice().iter()
+   - [to_strs_impl] = [filter_map_impl range_impl ..]   flags!::to_strs  (0..bits).filter_map(..) behind `impl Clone + Iterator`
 
    [prim_ok] is what an adaptor needs of the iterator it wraps: next / next_back step the sequence and
    size_hint bounds (exact = true: equals) its length.  Nothing else of the inner iterator is called. *)
@@ -37,7 +41,15 @@ From PV.Model Require Import Iters.
 From PV.Spec Require Export Deque.
 
 (* ================= std::slice::Iter, handed out as is ================= *)
-Definition slice_impl {B} : iter_impl (list B) B := deleg_impl (fun x : B => x).
+(* every method is slice::Iter's own, nth_back included (slice::Iter overrides it: [sl_nth_back]) *)
+Definition slice_impl {B} : iter_impl (list B) B :=
+  {| m_full := true;
+     m_next := fun l => Ok (sl_next l);
+     m_next_back := fun l => Ok (sl_next_back l);
+     m_nth := fun l n => Ok (sl_nth l n);
+     m_size_hint := fun l => Ok (sl_size_hint l);
+     m_count := fun l => Ok (sl_count l);
+     m_nth_back := fun l n => Ok (sl_nth_back l n) |}.
 
 (* ================= core::ops::Range<u32> (core::iter::range) ================= *)
 Definition range_st : Type := N * N.        (* start, end *)
@@ -64,9 +76,20 @@ Definition range_size_hint (s : range_st) : res (N * option N) :=
   let '(a, e) := s in if a <? e then Ok (e - a, Some (e - a)) else Ok (0, Some 0).
 Definition range_count (s : range_st) : res N :=
   let '(a, e) := s in if a <? e then Ok (e - a) else Ok 0.
+(* Step::backward_checked(start: u32, n: usize): match u32::try_from(n) { Ok(n) => start.checked_sub(n), Err(_) => None } *)
+Definition backward_checked32 (e n : N) : option N :=
+  if n <? W32 then (if n <=? e then Some (e - n) else None) else None.
+(* if let Some(minus_n) = backward_checked(end, n) { if minus_n > self.start { self.end = minus_n - 1; return Some(self.end) } }
+   self.end = self.start; None *)
+Definition range_nth_back (s : range_st) (n : N) : res (option N * range_st) :=
+  let '(a, e) := s in
+  match backward_checked32 e n with
+  | Some m => if a <? m then Ok (Some (m - 1), (a, m - 1)) else Ok (None, (a, a))
+  | None => Ok (None, (a, a))
+  end.
 Definition range_impl : iter_impl range_st N :=
   {| m_full := true; m_next := range_next; m_next_back := range_next_back; m_nth := range_nth;
-     m_size_hint := range_size_hint; m_count := range_count |}.
+     m_size_hint := range_size_hint; m_count := range_count; m_nth_back := range_nth_back |}.
 
 (* the plain sequence of a range: start, start+1, ... *)
 Fixpoint nseq (a : N) (n : nat) : list N :=
@@ -87,7 +110,8 @@ Section MapImpl.
        m_next_back := map_next_back;
        m_nth := fun s k => fwd_nth map_next (Datatypes.S (measure s)) s k;       (* not overridden: Iterator::nth *)
        m_size_hint := m_size_hint inner;                                (* self.iter.size_hint() *)
-       m_count := fun s => fwd_count map_next (Datatypes.S (measure s)) s 0 |}.  (* not overridden: Iterator::count *)
+       m_count := fun s => fwd_count map_next (Datatypes.S (measure s)) s 0;     (* not overridden: Iterator::count *)
+       m_nth_back := fun s k => prov_nth_back map_next_back (Datatypes.S (measure s)) s k |}.  (* not overridden: DoubleEndedIterator::nth_back *)
 End MapImpl.
 
 (* ================= core::iter::Zip (general implementation) ================= *)
@@ -119,13 +143,14 @@ Section ZipImpl.
        m_next_back := fun s => Ok (None, s);
        m_nth := fun s k => fwd_nth zip_next (Datatypes.S (measure s)) s k;        (* ZipImpl::nth = super_nth: the loop over next *)
        m_size_hint := zip_size_hint;
-       m_count := fun s => fwd_count zip_next (Datatypes.S (measure s)) s 0 |}.
+       m_count := fun s => fwd_count zip_next (Datatypes.S (measure s)) s 0;
+       m_nth_back := fun s _ => Ok (None, s) |}.        (* never callable behind `impl Iterator` *)
 End ZipImpl.
 
 (* the value behind `impl Clone + Iterator<Item = ..>`: only the Iterator methods remain callable *)
 Definition erase {S A} (impl : iter_impl S A) : iter_impl S A :=
   {| m_full := false; m_next := m_next impl; m_next_back := m_next_back impl; m_nth := m_nth impl;
-     m_size_hint := m_size_hint impl; m_count := m_count impl |}.
+     m_size_hint := m_size_hint impl; m_count := m_count impl; m_nth_back := m_nth_back impl |}.
 
 (* what an adaptor calls of the iterator it wraps, and what it needs of it *)
 Record prim_ok {S A} (exact : bool) (impl : iter_impl S A) (abs : S -> list A) (Inv : S -> Prop) : Prop := {
@@ -138,10 +163,12 @@ Record prim_ok {S A} (exact : bool) (impl : iter_impl S A) (abs : S -> list A) (
              (exact = true -> lo = lenN (abs s) /\ hi = Some (lenN (abs s)));
   p_full_exact : m_full impl = true -> exact = true;
 }.
-(* nth and count are Iterator's provided methods over the iterator's own next *)
+(* nth and count are Iterator's provided methods over the iterator's own next, and - where the iterator is
+   double-ended - nth_back is DoubleEndedIterator's provided method over its own next_back *)
 Definition provided_nth_count {S A} (impl : iter_impl S A) (measure : S -> nat) : Prop :=
   (forall s k, m_nth impl s k = fwd_nth (m_next impl) (Datatypes.S (measure s)) s k) /\
-  (forall s, m_count impl s = fwd_count (m_next impl) (Datatypes.S (measure s)) s 0).
+  (forall s, m_count impl s = fwd_count (m_next impl) (Datatypes.S (measure s)) s 0) /\
+  (m_full impl = true -> forall s k, m_nth_back impl s k = prov_nth_back (m_next_back impl) (Datatypes.S (measure s)) s k).
 
 (* ================= the shapes the library builds ================= *)
 
@@ -235,7 +262,8 @@ Section FlatImpl.
     {| m_full := false; m_next := flat_next; m_next_back := fun s => Ok (None, s);
        m_nth := fun s k => fwd_nth flat_next (Datatypes.S (measure s)) s k;
        m_size_hint := flat_size_hint;
-       m_count := fun s => fwd_count flat_next (Datatypes.S (measure s)) s 0 |}.
+       m_count := fun s => fwd_count flat_next (Datatypes.S (measure s)) s 0;
+       m_nth_back := fun s _ => Ok (None, s) |}.        (* never callable behind `impl Iterator` *)
 End FlatImpl.
 
 (* Resources::icons / cursors over the entries of the group directory (None: no such directory - an empty iterator) *)
@@ -244,6 +272,65 @@ Definition icons_measure {B} (s : option (list B) * option (list B)) : nat :=
 Definition icons_impl {B A} (f : B -> A) : iter_impl (option (list B) * option (list B)) A :=
   flat_impl (entries_impl f) (fun l : list B => l) icons_measure.
 Definition icons_start {B} (group_dir : option (list B)) : option (list B) * option (list B) := (None, group_dir).
+
+(* ================= Exception::functions ================= *)
+(* pe64/exception.rs:57:  self.image.iter().map(move |image| Function { pe, image })
+   handed out under its own type iter::Map<slice::Iter<RUNTIME_FUNCTION>, impl Clone + FnMut(..)>: the Map itself, so
+   double-ended and exact-size; next / next_back / size_hint / len are Map's (they pass to slice::Iter), nth / count /
+   nth_back are the provided loops Map inherits *)
+Definition exc_functions_impl {B A} (f : B -> A) : iter_impl (list B) A :=
+  map_impl slice_impl f (fun l => length l).
+
+(* ================= SectionHeaders::iter / IntoIterator for &SectionHeaders ================= *)
+(* wrap/sections.rs:88, 128:  self.as_slice().iter()  - the slice::Iter over the section headers, handed out as is *)
+Definition sections_iter_impl {B} : iter_impl (list B) B := slice_impl.
+
+(* ================= core::iter::FilterMap ================= *)
+Section FilterMapImpl.
+  Context {S B A : Type}.
+  Variables (inner : iter_impl S B) (f : B -> option A) (measure : S -> nat).
+  (* FilterMap::next = self.iter.find_map(&mut self.f); Iterator::find_map (provided) takes items of the inner iterator
+     until f answers Some (a try_fold over next) *)
+  Fixpoint fm_find (fuel : nat) (s : S) : res (option A * S) :=
+    match fuel with
+    | O => Fault OutOfFuel
+    | Datatypes.S fu =>
+      r <- m_next inner s ;;
+      match fst r with
+      | None => Ok (None, snd r)
+      | Some x => match f x with Some y => Ok (Some y, snd r) | None => fm_find fu (snd r) end
+      end
+    end.
+  Definition filter_map_next (s : S) : res (option A * S) := fm_find (Datatypes.S (measure s)) s.
+  (* let (_, upper) = self.iter.size_hint(); (0, upper)   - "can't know a lower bound, due to the predicate" *)
+  Definition filter_map_size_hint (s : S) : res (N * option N) :=
+    h <- m_size_hint inner s ;; Ok (0, snd h).
+  (* FilterMap is double-ended over a double-ended iterator, but the only one the library builds (to_strs) is handed out
+     as `impl Clone + Iterator`: next_back is never callable and is not modelled.  FilterMap overrides next, size_hint
+     (modelled) and fold / try_fold (behind the provided count: trusted to visit what next would); nth is Iterator's *)
+  Definition filter_map_impl : iter_impl S A :=
+    {| m_full := false; m_next := filter_map_next; m_next_back := fun s => Ok (None, s);
+       m_nth := fun s k => fwd_nth filter_map_next (Datatypes.S (measure s)) s k;
+       m_size_hint := filter_map_size_hint;
+       m_count := fun s => fwd_count filter_map_next (Datatypes.S (measure s)) s 0;
+       m_nth_back := fun s _ => Ok (None, s) |}.
+End FilterMapImpl.
+(* the plain sequence of a filter_map *)
+Fixpoint fm_list {B A} (f : B -> option A) (l : list B) : list A :=
+  match l with
+  | [] => []
+  | x :: t => match f x with Some y => y :: fm_list f t | None => fm_list f t end
+  end.
+
+(* flags!::to_strs (stringify.rs:81), for FileChars / DllChars (u16) and SectionChars (u32):
+     (0..mem::size_of::<$ty>() as u32 * 8).filter_map(move |i| if self.0 & (1 << i) != 0 { Self::flag_str(i) } else { None })
+   [bits] = size_of::<$ty>() * 8; [flag_str] is the macro's table (bit index -> identifier), a parameter: i < bits inside
+   the range, so 1 << i does not overflow *)
+Definition to_strs_f {A} (flag_str : N -> option A) (value : N) (i : N) : option A :=
+  if N.land value (N.shiftl 1 i) =? 0 then None else flag_str i.
+Definition to_strs_start (bits : N) : range_st := (0, bits).
+Definition to_strs_impl {A} (flag_str : N -> option A) (value : N) : iter_impl range_st A :=
+  filter_map_impl range_impl (to_strs_f flag_str value) range_measure.
 
 (* literal comparison of two output lists (the oracle of the iterators whose size hint is exact) *)
 Section OutEq.
